@@ -1,7 +1,7 @@
 // C01 (part): operation histories over StringWriter / BufferWriter.  See C01_hist.hh.
 #include "C01_hist.hh"
 
-VF_SECTION(hist_sw, 16, 16, 60) {
+VF_SECTION(hist_sw, 16, 16, 180) {
   auto alpha = build_alphabet(r.thorough());
   size_t depth = r.thorough() ? 4 : 3;
   r.note("StringWriter histories");
@@ -9,7 +9,7 @@ VF_SECTION(hist_sw, 16, 16, 60) {
   r.bound = vf::fmt("all operation sequences of length 1..%zu over %zu StringWriter operations (put_K(v), write(block), write(cstr), pput_K(off in {0,1,size-1,size,size+3}, v), extend_by(2)); un-merged, every history replayed on a fresh writer", depth, alpha.size());
 }
 
-VF_SECTION(hist_bw, 16, 16, 60) {
+VF_SECTION(hist_bw, 16, 16, 180) {
   auto alpha = build_alphabet(false);
   size_t depth = r.thorough() ? 4 : 3;
   r.note("BufferWriter histories");
@@ -18,7 +18,7 @@ VF_SECTION(hist_bw, 16, 16, 60) {
 }
 
 // round 2: non-initial writer states, template forms, far positional writes, both pwrite overloads
-VF_SECTION(hist2_sw, 16, 16, 60) {
+VF_SECTION(hist2_sw, 16, 16, 180) {
   auto alpha = build_alphabet2(false, r.thorough());
   size_t depth = r.thorough() ? 5 : 4;
   r.note("StringWriter state histories");
@@ -26,7 +26,7 @@ VF_SECTION(hist2_sw, 16, 16, 60) {
   r.bound = vf::fmt("all operation sequences of length 1..%zu over %zu StringWriter operations including reset(), str() moved out + reset(), copy-/move-assignment over a non-empty writer, extend_to/extend_by with explicit and defaulted fill (also by 0), put<T>/pput<T> with packed structs and endian wrappers, a 17-byte block (leaves the small-string buffer), pput 300 bytes past the end, straddling the end and exactly at the end", depth, alpha.size());
 }
 
-VF_SECTION(hist2_bw, 16, 16, 60) {
+VF_SECTION(hist2_bw, 16, 16, 180) {
   auto alpha = build_alphabet2(true, r.thorough());
   size_t depth = 4;
   r.note("BufferWriter state histories");
